@@ -324,6 +324,10 @@ def build(o):
         if k == "Sflb": a = np.array([o[1], o[1]], dtype=float)
         if k == "Sflb1": a = np.array([[o[1], o[1]]], dtype=float)
         return epg.S(a, prune=0), [a]
+    if k in ("Sg", "Sgb"):
+        a = np.array(o[1] if k == "Sg" else [o[1], o[1]], dtype=float)
+        kw = {} if o[2] is None else {"kgrid": o[2]}
+        return epg.S(a, prune=0, **kw), [a]
     if k == "G":
         g = np.array(o[2], dtype=float)
         return epg.G(o[1], g, prune=0), [g]
@@ -366,20 +370,26 @@ def mutated(watch):
 def run_seq(p, init_opts=None):
     """returns (final state matrix, description of a mutated operator or None)"""
     import epgpy as epg
-    opts = dict(kgrid=p["kgrid"], kvalue=p["kvalue"], tvalue=p.get("tvalue", 1.0))
+    opts = dict(kvalue=p["kvalue"], tvalue=p.get("tvalue", 1.0))
+    if p.get("kgrid") is not None:
+        opts["kgrid"] = p["kgrid"]
     opts.update(init_opts or {})
     sm = epg.StateMatrix(**opts)
+    options0 = repr(sorted(sm.options.items()))
     objs, watch = make_ops(p)
     for op in objs:
         sm = op(sm, inplace=True)
-    return sm, mutated(watch)
+    mut = mutated(watch)
+    if not mut and repr(sorted(sm.options.items())) != options0:
+        mut = "the options of the state matrix were changed by the operators: %s -> %s" % (options0, sorted(sm.options.items()))
+    return sm, mut
 
 
 def shift_vector(p, o):
     """phase advance (batch..., 4) = (rad/m x3, time) of one shift operator, in physical units"""
     k = o[0]
     kv = np.ones(3) * np.asarray(p["kvalue"], dtype=float)
-    if k in ("Snd", "Sfl", "Sflb", "Sflb1"):
+    if k in ("Snd", "Sfl", "Sflb", "Sflb1", "Sg", "Sgb"):
         v = np.zeros(4); v[:len(o[1])] = o[1]
     elif k == "S1":
         v = np.array([o[1], 0, 0, 0.0])
@@ -464,12 +474,12 @@ def oracle_case(ctx, p, pos, freq):
     # through the probes
     kd = np.asarray(sm.k).shape[-1]
     d = np.asarray(utils.imaging(pos[:, :kd], sm.F, sm.k[..., :3], acctime=sm.t if sm.kdim == 4 else None,
-                                 modulation=1j * freq, voxel_shape="point", reduce=False)).reshape(-1)
+                                 modulation=1j * freq, voxel_shape="point", reduce=False)).reshape(-1, len(pos))[0]
     e = np.abs(d - ref[:, 0]).max()
     if not e <= 1e-9 * scale:
         return "utils.imaging(voxel_shape='point') differs from the isochromat by %.3g" % e
     if sm.kdim < 4:
-        d = np.asarray(epg.DFT(pos[:, :kd]).acquire(sm)).reshape(-1)
+        d = np.asarray(epg.DFT(pos[:, :kd]).acquire(sm)).reshape(-1, len(pos))[0]
         e = np.abs(d - ref[:, 0]).max()
         if not e <= 1e-9 * scale:
             return "DFT probe differs from the isochromat by %.3g" % e
@@ -548,6 +558,66 @@ def gen_large(rng):
             ops.append(("E", rng.choice([2.0, 5.0]), 1000.0, 80.0, rng.choice([0.0, 0.01])))
     return {"fam": "large-" + kind, "ops": ops, "kvalue": rng.choice([1.0, 1.0, 2.5]), "tvalue": 1.0, "kgrid": u / 4,
             "reuse": True, "tol": 1e-6}
+
+
+def gen_grid(rng):
+    """gridded shifts whose validity depends on WHICH grid is applied in WHICH unit.
+    All wavenumbers live on nested lattices: shift i is an integer vector times u_i rad/m, u_i non-increasing by
+    factors of 4, handed to S in coordinate units (divided by kvalue).
+    'own': no global kgrid, every operator carries its own kgrid = u_i / {1,2,4,16} (coarse before fine and fine
+           before coarse; each is fine enough for the wavenumbers present when it is applied);
+    'kv':  one global kgrid in {1, 0.5} equal to the lattice unit, kvalue in {10, 2.5, 0.1}: the shift in rad/m is an
+           exact grid multiple, the shift in coordinate units is not.
+    p['unit'] = finest lattice unit: the same program exists with integer shifts and kvalue = unit."""
+    var = rng.choice(["own", "kv"])
+    dim = rng.choice([1, 2, 3])
+    kvalue = rng.choice([1.0, 2.5, 10.0]) if var == "own" else rng.choice([10.0, 2.5, 0.1])
+    u = rng.choice([4.0, 1.0]) if var == "own" else rng.choice([1.0, 0.5])
+    ops = [("T", rng.choice([45, 60, 90, 120]), rng.choice([0, 30, 90]))]
+    made = []
+    for i in range(rng.randint(2, 4)):
+        # an operator object may come back only while its own grid still resolves the (refined) lattice
+        again = [o for o in made if var == "kv" or o[2] <= u]
+        if again and rng.random() < 0.35:
+            ops.append(rng.choice(again))
+        else:
+            if var == "own" and i and rng.random() < 0.5:
+                u = u / 4
+            m = [rng.choice([0, 1, -1, 2, 3]) for _ in range(dim)]
+            if not any(m):
+                m[0] = 1
+            v = [mm * u / kvalue for mm in m]
+            g = u / rng.choice([1, 2, 4, 16]) if var == "own" else None
+            o = (rng.choice(["Sg", "Sg", "Sgb"]), v, g)
+            made.append(o); ops.append(o)
+        ops.append(("T", rng.choice([20, 45, 60, 90, 120, 160]), rng.choice([0, 30, 90, 200])))
+        if rng.random() < 0.3:
+            ops.append(("E", rng.choice([2.0, 5.0]), 1000.0, 80.0, rng.choice([0.0, 0.01])))
+    return {"fam": "grid-" + var, "ops": ops, "kvalue": kvalue, "tvalue": 1.0, "kgrid": None if var == "own" else u,
+            "reuse": True, "unit": u}
+
+
+def int_equivalent(p):
+    """the same program with integer n-D shifts in units of p['unit'] (kvalue = unit)"""
+    ops = []
+    for o in p["ops"]:
+        if o[0] in ("Sg", "Sgb"):
+            ops.append(("Snd", [int(round(x * p["kvalue"] / p["unit"])) for x in o[1]]))
+        else:
+            ops.append(o)
+    return dict(p, ops=ops, kvalue=p["unit"], kgrid=None, fam=p["fam"] + "-int")
+
+
+def equiv_case(p, pos, freq):
+    """gridded program vs its integer-shift equivalent: same wavenumber -> state content and same signals"""
+    q = int_equivalent(p)
+    (sa, _), (sb, _) = run_seq(p), run_seq(q)
+    first = lambda a: np.asarray(a).reshape(-1, len(pos))[0]
+    e1 = compare_contents(content_of(sa), content_of(sb))
+    e2 = np.abs(first(synth(sa, pos, freq)[0]) - first(synth(sb, pos, freq)[0])).max()
+    if not max(e1, e2) <= 1e-10:
+        return "gridded run differs from the equivalent integer-shift run (content %.3g, signal %.3g)" % (e1, e2)
+    return None
 
 
 def positions(rng, p, n=4):
@@ -738,11 +808,13 @@ def run(ctx):
     fams = {}
     oracle_failed = False
     for i in range(n_or):
-        p = gen_large(rng) if i % 4 == 3 else gen_batched(rng) if i % 3 == 2 else gen_seq(rng)
+        p = gen_large(rng) if i % 4 == 3 else gen_grid(rng) if i % 4 == 1 else gen_batched(rng) if i % 3 == 2 else gen_seq(rng)
         fams[p["fam"]] = fams.get(p["fam"], 0) + 1
         pos, freq = positions(rng, p)
         try:
             why = oracle_case(ctx, p, pos, freq)
+            if not why and "unit" in p:
+                why = equiv_case(p, pos, freq)
         except Exception as e:
             ctx.report("valid sequence raises %s: %s" % (type(e).__name__, str(e)[:200]), {"seq": p}, found_input=True,
                        signature={"raises": type(e).__name__, "fam": p["fam"]})
